@@ -87,6 +87,11 @@ def gen(rng):
     used = set()
     twins = [0]
     dates = [TG.rand_date(rng) for _ in range(4)]
+    dstmode = rng.random() < 0.12
+    if dstmode:
+        # the machine's zone has DST rules and the entries are dated around a change (written elsewhere, or before the zone was
+        # changed): DeletionDates are literal wall-clock readings and are ordered as such
+        dates = TG.dst_edge_dates(rng)
     for i in range(n):
         tdir, top, _u = rng.choice(locs) if rng.random() >= 0.12 else ('/.Trash-%d' % L['uid'], '/', True)
         if top is None:
@@ -104,7 +109,7 @@ def gen(rng):
             continue
         used.add(loc)
         pv = TG.pct(loc if top is None else (loc[1:] if top == '/' else loc[len(top) + 1:]))
-        date = rng.choice(dates) if rng.random() < 0.4 else TG.rand_date(rng)
+        date = rng.choice(dates) if (dstmode or rng.random() < 0.4) else TG.rand_date(rng)
         G.add_trashed(steps, tdir, 't%d' % i, pv, TG.iso(date), rng.choice(['file', 'dir', 'link']), tag=str(i))
         if rng.random() < 0.08:
             # the same path trashed again within the same second (a script that trashes and recreates a file): two entries, two lines
@@ -150,11 +155,11 @@ def gen(rng):
         if rng.random() < 0.7:
             argv = [a for a in argv if a == 'trash-restore' or a.startswith('--sort') or a in ('date', 'path', 'none')] + ['/']
     stdin = reply + '\n' if rng.random() < 0.9 else (reply if rng.random() < 0.5 else '')
-    return {
+    return dict({
         'world': {'mounts': L['mounts'], 'steps': steps},
         'procs': [{'argv': argv, 'env': L['env'], 'cwd': cwd, 'uid': L['uid'], 'stdin': stdin}],
         'dirsalt': rng.randrange(1 << 30),
-    }
+    }, **({'clock': TG.dst_clock(rng)} if dstmode else {}))
 
 
 def sort_mode(argv):
